@@ -738,16 +738,27 @@ func (c *Ctx) c01Length() {
 			}
 		})
 		var rowLens []string
+		proven := map[string]bool{}
 		allInstrs(r.F, func(in ssa.Instruction) {
 			if st, ok := in.(*ssa.Store); ok {
 				if t, f, fa := fieldAddrOf(st.Addr); fa != nil && t == "seq" && f == "sequence" {
-					rowLens = append(rowLens, lc.lenOf(st.Val).String())
+					rl := lc.lenOf(st.Val)
+					rowLens = append(rowLens, rl.String())
+					// the two values as linear forms: equal on every path class that reaches the store
+					// (a window `row[head:len-tail]` with (head, tail) chosen together by one branch)
+					if lenVal != nil && rl.String() != lenVal.String() {
+						ok1, _ := lc.proveAll(st.Block(), nil, consLE(rl, *lenVal, "row length <= cached length"))
+						ok2, _ := lc.proveAll(st.Block(), nil, consLE(*lenVal, rl, "cached length <= row length"))
+						if ok1 && ok2 {
+							proven[rl.String()] = true
+						}
+					}
 				}
 			}
 		})
 		okAll := lenVal != nil && len(rowLens) > 0
 		for _, rl := range rowLens {
-			if lenVal == nil || rl != lenVal.String() {
+			if lenVal == nil || (rl != lenVal.String() && !proven[rl]) {
 				okAll = false
 			}
 		}
@@ -1080,6 +1091,17 @@ func (c *Ctx) c01Filter() {
 			rowLen = &l
 		}
 	})
+	if rowLen == nil {
+		// the length read off the row buffer itself: len(row.sequence)
+		allInstrs(fn, func(in ssa.Instruction) {
+			if call, ok := in.(*ssa.Call); ok && builtinName(call.Common()) == "len" && rowLen == nil {
+				if _, f, base := loadedField(call.Common().Args[0]); base != nil && f == "sequence" {
+					l := lc.of(call)
+					rowLen = &l
+				}
+			}
+		})
+	}
 	if rowLen == nil {
 		L.Unknown("filter-domain", r.label, "row length", c.P.Pos(fn.Pos()), "no call of (*seq).Length found")
 		return
